@@ -138,6 +138,25 @@ def run(ctx):
                 ctx.violation(f"resume:order={n}", f"PRBS({n},{sum(lens)},seed={seed}) differs from resumed calls {lens}",
                               {"order": n, "seed": seed, "lens": lens})
             ctx.case(("resume-eq", n, nsplit))
+    # 2b'. long single calls (block sizes 2^12, 2^13, ... and their neighbours) against the same stream generated in short resumed
+    #      calls, each of which is validated by TLC
+    for n, L in [(7, 4096), (9, 8192), (15, 4097), (23, 12288), (31, 4095), (11, 65536 if thorough else 16384)]:
+        seed = rnd.randrange(1, 1 << n)
+        one, st1, _ = call(n, L, seed)
+        cur, outs = seed, []
+        while len(outs) < L:
+            c = min(251, L - len(outs))
+            out, st, warned = call(n, c, cur)
+            if len(outs) < 251 * 8 or L - len(outs) <= 251 * 4:
+                add({"kind": "call", "order": n, "given": True, "neg": False, "mag": bits_of(abs(cur)), "len": c, "out": out, "state": bits_of(st, n), "warned": warned},
+                    ("call", n, cur, c))
+            outs += out
+            cur = st
+        if one != outs or st1 != cur:
+            bad_at = next((i for i, (a, b) in enumerate(zip(one, outs)) if a != b), min(len(one), len(outs)))
+            ctx.violation(f"resume:order={n}:long", f"PRBS({n},{L},seed={seed}) differs from the stream generated 251 bits at a time (first difference at bit {bad_at})",
+                          {"order": n, "seed": seed, "len": L})
+        ctx.case(("resume-eq-long", n, L))
     # 2c. whole periods
     for n, seeds in [(7, [None, 1, 64, 77]), (9, [None, 1, 300]), (11, [None, 5]), (15, [None] + ([12345] if thorough else []))]:
         for seed in seeds:
